@@ -309,6 +309,18 @@ fn commit_staging_dir_impl(
     Ok(())
 }
 
+/// Verification hook (add-only, guarded): public entry to the injectable publish routine, so an
+/// out-of-tree harness can drive the real move-aside / swap-in / rollback sequence with injected
+/// rename faults and crash points. Same body, nothing else changes.
+#[cfg(quantus_network_qp_zk_circuits_verif)]
+pub fn verif_commit_staging_dir(
+    staging_dir: &Path,
+    output_dir: &Path,
+    rename: impl Fn(&Path, &Path) -> std::io::Result<()>,
+) -> Result<()> {
+    commit_staging_dir_impl(staging_dir, output_dir, rename)
+}
+
 #[cfg(test)]
 mod tests {
     use super::*;
